@@ -846,7 +846,12 @@ pub fn work_c19(ctx: &Ctx, rep: &mut Report) {
     let cprof = Profile::general().resizes(5).length((1, 4), (1, 6));
     let pr = probes();
     // inputs that park the parser in each of the 14 states
-    let parkers = ["", "\x1b", "\x1b(", "\x1b[", "\x1b[1;2", "\x1b[1 ", "\x1b[:", "\x1bP", "\x1bP1", "\x1bP ", "\x1bPq", "\x1bP:", "\x1b]0;", "\x1bX"];
+    let parkers = [
+        "", "\x1b", "\x1b(", "\x1b[", "\x1b[1;2", "\x1b[1 ", "\x1b[:", "\x1bP", "\x1bP1", "\x1bP ", "\x1bPq", "\x1bP:", "\x1b]0;", "\x1bX",
+        // strings opened with the 8-bit introducers right after sequences that leave a marker /
+        // intermediate / parameters behind (the C1 openers do not clear the registers)
+        "\x1b[?25h\u{9d}0;t", "\x1b(B\u{98}x", "\x1b[!p\u{9e}y", "\x1b[1;2;3m\u{9f}abc", "\x1b#8\u{9d}", "\x1b[?7h\u{90}1$q", "\x1b)0\u{90}q",
+    ];
     for u in ctx.units(n) {
         let mut r = Rng::derive(ctx.seed, &[0xC19, 1, u as u64]);
         let mut h = gen::history(&mut r, &prof);
